@@ -5,6 +5,8 @@ import OPM.Lemmas.InterpC04Events
 import OPM.Lemmas.InterpC04Stack
 import OPM.Lemmas.InterpC04Quiet
 import OPM.Lemmas.InterpC04Rearm
+import OPM.Lemmas.InterpC04Sa
+import OPM.Lemmas.InterpC04Tick
 /-!
 # C04 Watch runs once after its condition holds; Alarm re-arms
 
@@ -16,10 +18,12 @@ Model: `OPM.Model.Interp` (frame-stack machine of `pinterpreter.py`; one `Gen` p
 `Event.bodyStart w` is `tracking.mark_started(w)` in `visit_WatchNode` / `visit_AlarmNode` (the run log's
 "Started" of the Watch/Alarm); `bsCount s w` counts these events in the event log of the current tick.
 
-The theorems are about every micro-step of every generator in every state (not only reachable ones),
-for every program, hence about every tick and every schedule of ticks, tag trajectories, cancel / force
-requests and End block(s).  Where a clause needs a hypothesis on the program it is a decidable one
-(`noCalls`, `ordered`) and the unrestricted statement is kept visible and refuted by a witness.
+Sections 1-4: guards about every micro-step of every generator in every state (not only reachable
+ones), for every program — hence about every tick and every schedule of ticks, tag trajectories,
+cancel / force requests and End block(s).  Section 6 lifts them to whole ticks and whole runs
+(`Reachable`, `Run`: inductive over all schedules).  Where a clause needs a hypothesis on the program it
+is a decidable one (`noCalls`, `ordered`, `stable`) and the unrestricted statement is kept visible and
+refuted by a witness (section 5).
 -/
 namespace OPM.C04
 open OPM.Interp
@@ -44,8 +48,8 @@ theorem activation_guard (p : Prog) (s : St) (stack : List Frame) (k : Nat)
       subst h2
       exact stepGen_activating_sig p s k below h0 h3
 
-/-- Requests between ticks never activate: cancel, force, command completion and code injection leave
-    `activated` of every node unchanged. -/
+/-- Requests between ticks never activate: cancel, force and command completion leave `activated` of
+    every node unchanged (code injection: `inject_does_not_activate`). -/
 theorem requests_do_not_activate (p : Prog) (s : St) (n k : Nat) :
     (∀ s', cancel p s n = some s' → (s'.rt k).activated = (s.rt k).activated) ∧
     (∀ s', force p s n = some s' → (s'.rt k).activated = (s.rt k).activated) ∧
@@ -276,6 +280,179 @@ theorem tick_keeps_only_registered (p : Prog) (s : St) (i : TickIn) :
     ∀ g ∈ (tick p s i).1.gens, g.gid = 0 ∨ g.gid ∈ (tick p s i).1.imap.map (·.2) :=
   tick_gens_registered p s i
 
+/-- The `scope_activate` event of a Watch/Alarm (what the real emitter reports and the correspondence
+    compares) is appended in exactly the micro-steps that append its `bodyStart`, one for one. -/
+theorem scope_activate_matches_body_start (p : Prog) (s : St) (stack : List Frame) (w : Nat)
+    (hw : isCond p w = true) :
+    saCount (stepGen p s stack).1 w - saCount s w = bsCount (stepGen p s stack).1 w - bsCount s w :=
+  stepGen_sa_eq_bs p s stack w hw
+
+/-! ## 6. whole ticks and whole runs -/
+
+/-- States reachable by any schedule of ticks (any clocks, any tag values; each tick ran to its
+    `EndTick`s within the model's micro-step budget) and of cancel / force / completion / inject requests. -/
+inductive Reachable (p : Prog) : St → Prop
+  | init : Reachable p (init p)
+  | tick (s : St) (i : TickIn) : Reachable p s → (tick p s i).2 = true → Reachable p (tick p s i).1
+  | cancel (s s' : St) (n : Nat) : Reachable p s → cancel p s n = some s' → Reachable p s'
+  | force (s s' : St) (n : Nat) : Reachable p s → force p s n = some s' → Reachable p s'
+  | complete (s : St) (n : Nat) : Reachable p s → Reachable p (completeCmd s n)
+  | inject (s : St) (n : Nat) : Reachable p s → Reachable p (inject p s n)
+
+/-- **Quiet at every tick boundary.** In every reachable state no generator sits at a Watch/Alarm
+    invocation point: the hypothesis of `body_starts_only_if_activated_before` holds for every
+    generator that any tick runs. -/
+theorem reachable_allQuiet (p : Prog) (s : St) (hr : Reachable p s) : AllQuiet p s := by
+  induction hr with
+  | init =>
+    intro g hg
+    simp only [init, List.mem_cons, List.mem_nil_iff, or_false] at hg
+    subst hg; exact quiet_wrapEnter p 0
+  | tick s i _ hok ih =>
+    exact (tick_invariant p (fun _ => True) ⟨fun _ _ h => h, fun _ _ h => h⟩ (fun _ _ _ _ _ _ => trivial)
+      s i ih trivial hok).1
+  | cancel s s' n _ hc ih => exact allQuiet_cancel p s s' n hc ih
+  | force s s' n _ hc ih => exact allQuiet_force p s s' n hc ih
+  | complete s n _ ih => exact allQuiet_complete p s n ih
+  | inject s n _ ih => exact allQuiet_inject p s n ih
+
+/-- `w`'s condition on the tag values of a tick input -/
+def condHolds (p : Prog) (w : Nat) (tags : List Int) : Prop :=
+  ∃ c, ((node p w).kind = .watch c ∨ (node p w).kind = .alarm c) ∧ evalCond { tags := tags } c = true
+
+/-- **Only after its condition held, or after force (tick level).** If a tick starts the body of a
+    Watch/Alarm `w`, then `w` was activated before this tick (by an earlier tick, through
+    `activation_guard`), or it was forced before this tick, or its condition holds on this tick's tag
+    values.  For every method (also the pathological nestings) and every state whose generators are
+    quiet — in particular every reachable state. -/
+theorem tick_starts_body_only_if_condition_or_force (p : Prog) (s : St) (i : TickIn) (w : Nat)
+    (hw : isCond p w = true) (hq : AllQuiet p s) (hok : (tick p s i).2 = true)
+    (hst : bsCount (tick p s i).1 w ≠ 0) :
+    (s.rt w).activated = true ∨ (s.rt w).forced = true ∨ condHolds p w i.tags := by
+  let A0 : Prop := (s.rt w).activated = true ∨ (s.rt w).forced = true ∨ condHolds p w i.tags
+  let M : St → Prop := fun s' =>
+    s'.tags = i.tags ∧ ((s'.rt w).activated = true → A0) ∧ ((s'.rt w).forced = true → (s.rt w).forced = true)
+  let I : St → Prop := fun s' => M s' ∧ (bsCount s' w ≠ 0 → A0)
+  have hM : ∀ s' stack, M s' → M (stepGen p s' stack).1 := by
+    intro s' stack ⟨h1, h2, h3⟩
+    have hin := congrArg Inputs.tags (stepGen_in p s' stack)
+    simp only [inputs] at hin
+    refine ⟨hin.trans h1, ?_, fun h => h3 (stepGen_forc_le p s' stack w h)⟩
+    intro ha
+    rcases stepGen_act p s' stack w ha with h | ⟨_, c, hk, _, hf | he⟩
+    · exact h2 h
+    · exact Or.inr (Or.inl (h3 hf))
+    · refine Or.inr (Or.inr ⟨c, hk, ?_⟩)
+      unfold evalCond at he ⊢
+      rw [h1] at he
+      exact he
+  have hb : Blind I := ⟨fun _ _ h => h, fun _ _ h => h⟩
+  have hrun : ∀ fuel s' stack, I s' → Quiet p stack → (runGen p fuel s' stack).2.2 = true →
+      I (runGen p fuel s' stack).1 := by
+    intro fuel s' stack ⟨hm, hc⟩ hqs hok'
+    refine ⟨runGen_invariant p M hM fuel s' stack hm, ?_⟩
+    intro hne
+    by_cases hch : bsCount (runGen p fuel s' stack).1 w = bsCount s' w
+    · exact hc (by rw [← hch]; exact hne)
+    · exact hm.2.1 ((runGen_guard p fuel s' stack (Or.inl hqs) hok').2 w hw hch)
+  have h0 : I (prelude s i) := ⟨⟨rfl, fun h => Or.inl h, fun h => h⟩, fun h => absurd rfl h⟩
+  exact (tick_invariant p I hb hrun s i hq h0 hok).2.2 hst
+
+/-- One tick from a state in which the stable Watch `w` is cancelled and not activated: no `bodyStart w`
+    in this tick's event log, and `w` is still cancelled and not activated afterwards. -/
+theorem tick_cancelled_never_starts (p : Prog) (s : St) (i : TickIn) (w : Nat)
+    (hw : isCond p w = true) (hs : stable p w = true) (hq : AllQuiet p s) (hok : (tick p s i).2 = true)
+    (hc : (s.rt w).cancelled = true) (ha : (s.rt w).activated = false) :
+    bsCount (tick p s i).1 w = 0 ∧ ((tick p s i).1.rt w).cancelled = true ∧
+    ((tick p s i).1.rt w).activated = false ∧ AllQuiet p (tick p s i).1 := by
+  obtain ⟨hnc, hna⟩ := stable_spec p w hs
+  let M : St → Prop := fun s' => (s'.rt w).cancelled = true ∧ (s'.rt w).activated = false
+  let I : St → Prop := fun s' => M s' ∧ bsCount s' w = 0
+  have hM : ∀ s' stack, M s' → M (stepGen p s' stack).1 := by
+    intro s' stack ⟨h1, h2⟩
+    refine ⟨?_, cancelled_blocks_activation p s' stack w h1 h2⟩
+    rcases stepGen_canc_keep p s' stack w h1 with h | ⟨n, _, hal, hm⟩ | ⟨n, _, hcl⟩
+    · exact h
+    · exact absurd hm (hna n hal)
+    · rw [hnc n] at hcl; cases hcl
+  have hb : Blind I := ⟨fun _ _ h => h, fun _ _ h => h⟩
+  have hrun : ∀ fuel s' stack, I s' → Quiet p stack → (runGen p fuel s' stack).2.2 = true →
+      I (runGen p fuel s' stack).1 := by
+    intro fuel s' stack ⟨hm, hz⟩ hqs hok'
+    refine ⟨runGen_invariant p M hM fuel s' stack hm, ?_⟩
+    rw [cancelled_body_never_starts p fuel s' stack w hw hqs hok' hm.2]
+    exact hz
+  have h0 : I (prelude s i) := ⟨⟨hc, ha⟩, rfl⟩
+  obtain ⟨h1, ⟨h2, h3⟩, h4⟩ := tick_invariant p I hb hrun s i hq h0 hok
+  exact ⟨h4, h2, h3, h1⟩
+
+/-- Schedules continuing from a state: ticks that ran to their `EndTick`s, and requests. -/
+inductive Run (p : Prog) : St → St → Prop
+  | refl (s : St) : Run p s s
+  | tick (s s' : St) (i : TickIn) : Run p s s' → (tick p s' i).2 = true → Run p s (tick p s' i).1
+  | cancel (s s' s'' : St) (n : Nat) : Run p s s' → cancel p s' n = some s'' → Run p s s''
+  | force (s s' s'' : St) (n : Nat) : Run p s s' → force p s' n = some s'' → Run p s s''
+  | complete (s s' : St) (n : Nat) : Run p s s' → Run p s (completeCmd s' n)
+  | inject (s s' : St) (n : Nat) : Run p s s' → Run p s (inject p s' n)
+
+/-- Injecting code leaves `cancelled` and `activated` of every node unchanged. -/
+theorem inject_does_not_activate (p : Prog) (s : St) (n w : Nat) :
+    ((inject p s n).rt w).activated = (s.rt w).activated := (rt_inject_flags p s n w).2
+
+/-- **Neither runs after it was cancelled (whole runs).** Once a stable Watch is cancelled while it is
+    not activated (the only situation in which a cancel is accepted, `cancel_accepted_only_before_activation`),
+    then under every continuation — any ticks with any tag values, any further cancel / force /
+    completion / inject requests — it stays cancelled and not activated, and no later tick's event log
+    contains a `bodyStart` for it. -/
+theorem cancelled_watch_never_runs (p : Prog) (s s' : St) (w : Nat)
+    (hw : isCond p w = true) (hs : stable p w = true) (hq : AllQuiet p s)
+    (hc : (s.rt w).cancelled = true) (ha : (s.rt w).activated = false) (hrun : Run p s s') :
+    (s'.rt w).cancelled = true ∧ (s'.rt w).activated = false ∧ AllQuiet p s' ∧
+    ∀ i, (tick p s' i).2 = true → bsCount (tick p s' i).1 w = 0 := by
+  have main : (s'.rt w).cancelled = true ∧ (s'.rt w).activated = false ∧ AllQuiet p s' := by
+    induction hrun with
+    | refl => exact ⟨hc, ha, hq⟩
+    | tick s' i _ hok ih =>
+      obtain ⟨h1, h2, h3⟩ := ih
+      obtain ⟨_, g2, g3, g4⟩ := tick_cancelled_never_starts p s' i w hw hs h3 hok h1 h2
+      exact ⟨g2, g3, g4⟩
+    | cancel s' s'' n _ hcn ih =>
+      obtain ⟨h1, h2, h3⟩ := ih
+      refine ⟨?_, ?_, allQuiet_cancel p s' s'' n hcn h3⟩
+      · unfold cancel at hcn
+        split at hcn
+        · cases hcn; simp only [rt_setRt]; split
+          · rfl
+          · exact h1
+        · cases hcn
+      · rw [(requests_do_not_activate p s' n w).1 s'' hcn]; exact h2
+    | force s' s'' n _ hfn ih =>
+      obtain ⟨h1, h2, h3⟩ := ih
+      refine ⟨?_, ?_, allQuiet_force p s' s'' n hfn h3⟩
+      · unfold force at hfn
+        split at hfn
+        · cases hfn; simp only [rt_setRt]; split
+          · rename_i e; subst e; exact h1
+          · exact h1
+        · cases hfn
+      · rw [(requests_do_not_activate p s' n w).2.1 s'' hfn]; exact h2
+    | complete s' n _ ih =>
+      obtain ⟨h1, h2, h3⟩ := ih
+      refine ⟨?_, ?_, allQuiet_complete p s' n h3⟩
+      · unfold completeCmd
+        split
+        · exact h1
+        · simp only [rt_setRt]; split
+          · rename_i e; subst e; exact h1
+          · exact h1
+      · rw [(requests_do_not_activate p s' n w).2.2]; exact h2
+    | inject s' n _ ih =>
+      obtain ⟨h1, h2, h3⟩ := ih
+      obtain ⟨g1, g2⟩ := rt_inject_flags p s' n w
+      exact ⟨g1.trans h1, g2.trans h2, allQuiet_inject p s' n h3⟩
+  obtain ⟨h1, h2, h3⟩ := main
+  exact ⟨h1, h2, h3, fun i hok => (tick_cancelled_never_starts p s' i w hw hs h3 hok h1 h2).1⟩
+
 /-! ## 5. the literal reading of "at most once", and why it is partial -/
 
 /-- `bodyStart w` events over a whole run (a list of tick inputs). -/
@@ -317,7 +494,19 @@ def demoRun (tags : List Int) : St :=
   tags.foldl (fun s t => (tick demo s ⟨0, 0, 0, [t]⟩).1) (init demo)
 
 /-- the hypotheses on the program are satisfiable by real methods -/
-example : noCalls demo = true ∧ ordered demo = true ∧ isCond demo 1 = true := by decide +kernel
+example : noCalls demo = true ∧ ordered demo = true ∧ isCond demo 1 = true ∧ stable demo 1 = true := by decide +kernel
+/-- … and `stable` excludes exactly the Watch inside the Alarm of the counter-example -/
+example : stable cex 2 = false := by decide +kernel
+/-- the ticks of the demo run complete within the micro-step budget, so its states are `Reachable` and
+    `Run` continuations of each other (hypotheses of `reachable_allQuiet`, `cancelled_watch_never_runs`,
+    `tick_starts_body_only_if_condition_or_force`) -/
+example : (tick demo (init demo) ⟨0, 0, 0, [0]⟩).2 = true ∧
+    (tick demo (demoRun [0, 0, 0, 0, 0]) ⟨0, 0, 0, [1]⟩).2 = true ∧
+    (tick demo (demoRun [0, 0, 0, 0, 0, 1]) ⟨0, 0, 0, [0]⟩).2 = true := by decide +kernel
+/-- the tick that starts the body: `w` was activated before it (first disjunct of the tick-level guard),
+    while its condition is false on that tick's own tag values -/
+example : bsCount (tick demo (demoRun [0, 0, 0, 0, 0, 1]) ⟨0, 0, 0, [0]⟩).1 1 = 1 ∧
+    ((demoRun [0, 0, 0, 0, 0, 1]).rt 1).activated = true := by decide +kernel
 example : noCalls cex = true ∧ ordered cex = true := by decide +kernel
 
 /-- after 5 ticks with T0 = 0 the Watch's generator waits at its await point, not activated … -/
@@ -345,5 +534,39 @@ example : (cancel demo (demoRun [0, 0, 0, 0, 0, 1]) 1).isNone = true := by decid
 /-- the Alarm of `cex` re-arms: after 11 ticks with T0 = 1 it has completed one run and is registered again -/
 example : (((List.replicate 11 (⟨0, 0, 0, [1]⟩ : TickIn)).foldl (fun s i => (tick cex s i).1) (init cex)).rt 1).runCount
     = 1 := by decide +kernel
+
+/-- `activation_guard` applies: at the await point with T0 = 1 the step activates the Watch (from not
+    activated), ends the sub-tick, and emits no `bodyStart`; `body_start_only_at_invocation` applies at
+    the invocation point of the activated Watch -/
+example :
+    let s := prelude (demoRun [0, 0, 0, 0, 0]) ⟨0, 0, 0, [1]⟩
+    (s.rt 1).activated = false ∧
+    ((stepGen demo s [.body 1 1, .wrapAfter 1]).1.rt 1).activated = true ∧
+    (stepGen demo s [.body 1 1, .wrapAfter 1]).2.2 = .endTick ∧
+    bsCount (stepGen demo s [.body 1 1, .wrapAfter 1]).1 1 = 0 ∧
+    bsCount (stepGen demo (demoRun [0, 0, 0, 0, 0, 1]) [.body 1 2, .wrapAfter 1]).1 1 ≠
+      bsCount (demoRun [0, 0, 0, 0, 0, 1]) 1 := by decide +kernel
+
+/-- the children loop enters the Watch from the program node (`no_entry_into_ended_block` applies) -/
+example : Frame.wrapEnter 1 ∈ outTop (stepFrame demo (demoRun [0]) (.children 0 0 false) []) := by decide +kernel
+
+/-- `Block: B` / `Watch: T0 > 0` / `Mark: a` ; `Wait: 2 s` ; `End block` -/
+def demoB : Prog := #[
+  { kind := .program, parent := none, children := [1], threshold := none, keyPath := [0] },
+  { kind := .block "B", parent := some 0, children := [2, 4, 5], threshold := none, keyPath := [0, 1] },
+  { kind := .watch ⟨0, .gt, 0⟩, parent := some 1, children := [3], threshold := none, keyPath := [0, 1, 2] },
+  { kind := .mark "a", parent := some 2, children := [], threshold := none, keyPath := [0, 1, 2, 3] },
+  { kind := .wait 2, parent := some 1, children := [], threshold := none, keyPath := [0, 1, 4] },
+  { kind := .endBlock, parent := some 1, children := [], threshold := none, keyPath := [0, 1, 5] }]
+
+def runB (k : Nat) : St :=
+  (List.range k).foldl (fun s j => (tick demoB s ⟨(j : Nat) / 8, (j : Nat) / 8, (j : Nat) / 8, [0]⟩).1) (init demoB)
+
+/-- after 6 ticks the block is locked and the Watch inside it is registered: the hypotheses of
+    `endBlock_aborts_interrupts` hold; and End block does abort it -/
+example : lockedBlocks demoB (runB 6) = [1] ∧ 2 ∈ (runB 6).imap.map (·.1) ∧
+    (descendants demoB 1).contains 2 = true ∧
+    ((endBlockStep demoB (runB 6)).rt 2).childrenComplete = true ∧
+    (endBlockStep demoB (runB 6)).imap = [] := by decide +kernel
 
 end OPM.C04
